@@ -269,7 +269,11 @@ class World:
         changed = {r for r in after if r not in want or after[r] != want[r]}
         if changed:
             raise HarnessError(f"collection created / modified files: {sorted(changed)}")
-        return {"D": D, "lost_protected": sorted(D & self.P), "lost_reachable": sorted(D & (self.R | self.M) - self.P)}
+        # a marker that is still on storage after the run (e.g. because it could not be deleted) keeps its target
+        # protected - whatever its age: a collector that failed to remove a marker must not act as if it had
+        kept_protection = {info["target"] for mk, info in self.markers.items() if mk in after and mk in want}
+        return {"D": D, "lost_protected": sorted(D & (self.P | kept_protection)),
+                "lost_reachable": sorted(D & (self.R | self.M) - self.P)}
 
 
 # ---------------------------------------------------------------------------
